@@ -299,6 +299,7 @@ def coverage(results, cal, wall, workers, known_hits, fixed, reported, root, tho
         'jobs_per_hour': int(len(results) / wall * 3600),
         'scanner_runs_per_hour': int((nvar + len(results)) / wall * 3600),
         'worker_processes': workers,
+        'simulated_time': 'not applicable: C16 has no clock; cache histories use fixed far-past / far-future mtimes so that no outcome depends on the wall clock',
         'hash_seeds_used': seeds,
         'dependency_shapes': dict(collections.Counter(r['shape'] for r in results)),
         'declarations_total': sum(r['ndecls'] for r in results),
